@@ -3,6 +3,7 @@ package main
 import (
 	"net"
 	"net/netip"
+	"strings"
 	"time"
 
 	"github.com/AdguardTeam/AdGuardHome/internal/filtering"
@@ -85,6 +86,7 @@ func addr(s string) netip.Addr { return netip.MustParseAddr(s) }
 var clientNames = map[string]string{
 	"cid-a":    "alice laptop",
 	"10.0.0.2": "bobphone",
+	"10.0.0.4": "caroltv",
 }
 
 func findClient(ids []string) (*querylog.Client, error) {
@@ -269,7 +271,37 @@ var kinds = []kind{
 		XName:  "gone.example", XType: "A", XClass: "IN", XReason: "RewriteRule",
 		XRules: []expRule{{0, "||gone.example^$dnsrewrite=NXDOMAIN"}}, XStatus: "NXDOMAIN",
 	},
+	{ // 14: a large but legal answer: the stored line is about 8 KiB (limit 16 KiB)
+		Name: "big-txt-answer", QName: "big.example.", QType: dns.TypeTXT, QClass: dns.ClassINET,
+		IP: "10.0.0.2", MaskedIP: "10.0.0.0", Proto: querylog.ClientProtoPlain, Upstream: "8.8.8.8:53",
+		Elapsed: 2 * time.Millisecond, XElapsed: "2",
+		Result: func() *filtering.Result { return &filtering.Result{} },
+		Answer: reply("big.example.", dns.TypeTXT, dns.RcodeSuccess, false, "big.example. 120 IN TXT "+bigTXT),
+		XName:  "big.example", XType: "TXT", XClass: "IN", XReason: "NotFilteredNotFound",
+		XStatus: "NOERROR", XAnswer: []ans{{"TXT", bigTXT, 120}},
+	},
+	{ // 15: a ClientID that belongs to nobody, from the address of a known client
+		Name: "unknown-clientid-from-bobphone", QName: "shared.example.", QType: dns.TypeA, QClass: dns.ClassINET,
+		IP: "10.0.0.2", MaskedIP: "10.0.0.0", ClientID: "cid-u", Proto: querylog.ClientProtoDoT, Upstream: "8.8.8.8:53",
+		Elapsed: time.Millisecond, XElapsed: "1",
+		Result: func() *filtering.Result { return &filtering.Result{} },
+		Answer: reply("shared.example.", dns.TypeA, dns.RcodeSuccess, false, "shared.example. 300 IN A 1.2.3.9"),
+		XName:  "shared.example", XType: "A", XClass: "IN", XReason: "NotFilteredNotFound",
+		XStatus: "NOERROR", XAnswer: []ans{{"A", "1.2.3.9", 300}},
+	},
+	{ // 16: the same ClientID from the address of another known client
+		Name: "unknown-clientid-from-caroltv", QName: "shared.example.", QType: dns.TypeA, QClass: dns.ClassINET,
+		IP: "10.0.0.4", MaskedIP: "10.0.0.0", ClientID: "cid-u", Proto: querylog.ClientProtoDoT, Upstream: "8.8.8.8:53",
+		Elapsed: time.Millisecond, XElapsed: "1",
+		Result: func() *filtering.Result { return &filtering.Result{} },
+		Answer: reply("shared.example.", dns.TypeA, dns.RcodeSuccess, false, "shared.example. 300 IN A 1.2.3.9"),
+		XName:  "shared.example", XType: "A", XClass: "IN", XReason: "NotFilteredNotFound",
+		XStatus: "NOERROR", XAnswer: []ans{{"A", "1.2.3.9", 300}},
+	},
 }
+
+// bigTXT is 24 character strings of 250 bytes in presentation format.
+var bigTXT = strings.TrimSuffix(strings.Repeat(`"`+strings.Repeat("k", 250)+`" `, 24), " ")
 
 // addParams builds the argument of Add for kind k with the client address ip
 // (already passed through the anonymiser, as the DNS server does).
